@@ -78,12 +78,13 @@ Definition enc_panic (c : N) : list N := [2%N; c].
 (* ---- BufReader / BufWriter programs ---------------------------------- *)
 
 (* BufWriter program step: 1 n bytes.. = write ; 2 = flush ; 3 = shutdown *)
-Inductive bwop := BwWrite (d : list byte) | BwFlush | BwShutdown.
+Inductive bwop := BwWrite (d : list byte) | BwFlush | BwShutdown | BwWriteV (segs : list (list byte)).
 Definition dec_bwop (l : list N) : option (bwop * list N) :=
   match l with
   | 1%N :: r => let? '(bs, r') := dec_bytes r in Some (BwWrite bs, r')
   | 2%N :: r => Some (BwFlush, r)
   | 3%N :: r => Some (BwShutdown, r)
+  | 4%N :: n :: r => let? '(segs, r') := dec_list (nn n) dec_bytes r in Some (BwWriteV segs, r')
   | _ => None
   end.
 
@@ -96,6 +97,7 @@ Fixpoint run_bw (ops : list bwop) (ws : list answer) (b : buffer) (log : list we
              | BwWrite d => bw_write ws b log d
              | BwFlush => bw_flush ws b log
              | BwShutdown => bw_shutdown ws b log
+             | BwWriteV segs => bw_write_vectored ws b log segs
              end in
     match r with
     | Panic c => enc_panic c
